@@ -238,9 +238,20 @@ CASES = [
     S("s-to-helper-dict-clear", TO, "ThresholdOptimizer._pmf_predict mutates the helper's interpolation_dict directly",
       (TO_PMF, "        self.interpolated_thresholder_.interpolation_dict.pop(None, None)\n" + TO_PMF), expect="refused"),
     S("s-adv-validate-reset", ADV, "_raw_predict: validate_data(.., reset=True)", ("            reset=False,\n", "            reset=True,\n")),
-    S("s-cr-validate-noreset", CR, "CorrelationRemover.transform passes reset=False (repair of F5g)",
-      ("        X = validate_data(self, X)\n        if self._n_features_in_ != X.shape[1]:\n",
-       "        X = validate_data(self, X, reset=False)\n        if self._n_features_in_ != X.shape[1]:\n")),
+    # F5g is repaired in /repo (`validate_data(self, X, reset=False)` in CorrelationRemover.transform): the cases below are written
+    # against the REPAIRED text (before the fix commit they report BADCASE: pattern not found)
+    S("s-cr-validate-reset-dropped", CR, "CorrelationRemover.transform: reset=False dropped again (revert of the F5g repair)",
+      ("        X = validate_data(self, X, reset=False)\n        if self._n_features_in_ != X.shape[1]:\n",
+       "        X = validate_data(self, X)\n        if self._n_features_in_ != X.shape[1]:\n"), expect="changed"),
+    S("s-cr-validate-reset-true", CR, "CorrelationRemover.transform: reset=True",
+      ("        X = validate_data(self, X, reset=False)\n        if self._n_features_in_ != X.shape[1]:\n",
+       "        X = validate_data(self, X, reset=True)\n        if self._n_features_in_ != X.shape[1]:\n"), expect="changed"),
+    S("s-cr-validate-reset-expression", CR, "CorrelationRemover.transform: reset depends on the input",
+      ("        X = validate_data(self, X, reset=False)\n        if self._n_features_in_ != X.shape[1]:\n",
+       "        X = validate_data(self, X, reset=not hasattr(X, \"columns\"))\n        if self._n_features_in_ != X.shape[1]:\n"), expect="refused"),
+    R("r-cr-validate-keyword-x", CR, "CorrelationRemover.transform: validate_data(self, X=X, reset=False), comment",
+      ("        X = validate_data(self, X, reset=False)\n        if self._n_features_in_ != X.shape[1]:\n",
+       "        # width / feature names are checked against the fitted ones\n        X = validate_data(self, X=X, reset=False)\n        if self._n_features_in_ != X.shape[1]:\n")),
     # ------------------------------------------------------------------ predictOtherCalls (what is NOT followed during prediction)
     R("r-adv-predict-fn-temp", ADV, "_AdversarialFairness.predict: temporary for the predictor function (the call is then on a local: "
       "the generated list loses `predictor_function_()`, every theorem survives)",
